@@ -135,7 +135,20 @@ class Strict:
         out = {}
         pos = 0
         types = {f.t for f in table}
-        for t, hs, vs, ve, _short in self.elements(buf, start, end):
+        it = self.elements(buf, start, end)
+        while True:
+            try:
+                t, hs, vs, ve, _short = next(it)
+            except StopIteration:
+                break
+            except Reject as e:
+                # an element that runs past its parent and would have been read as an INTEGER here: there are not enough bytes
+                # to read it from (the other overruns - byte strings, nested elements cut short by slicing - are one recorded
+                # finding; a number made up from fewer bytes than declared is another matter)
+                tt = _overrunning_type(e.detail) if e.reason == 'overrun' else None
+                if tt is not None and any(table[i].t == tt and table[i].kind == 'uint' for i in range(pos, len(table))):
+                    raise Reject('overrun-uint', e.detail)
+                raise
             idx = None
             for i in range(pos, len(table)):
                 if table[i].t == t:
@@ -339,11 +352,18 @@ def run_lib(decoder, wire):
 # --------------------------------------------------------------------------------------------------------------------
 REJECT_KEYS = {
     'overrun': 'C07:nested-length-overruns-parent',
+    'overrun-uint': 'C07:nested-length-overruns-parent:integer-read-from-fewer-bytes',
     'component-overruns-name': 'C07:name-component-overruns-name',
     'tl-truncated': 'C07:truncated-element-header-accepted',
     'critical-low-even': 'C07:even-type-below-32-not-treated-as-critical',
     'siginfo-critical': 'C07:data-signatureinfo-repeated-or-out-of-order-critical-accepted',
 }
+
+
+def _overrunning_type(detail):
+    import re
+    m = re.match(r'element type (\d+) at', detail or '')
+    return int(m.group(1)) if m else None
 
 
 def post_exception(decoder, out):
